@@ -1,0 +1,21 @@
+//go:build verif
+
+// Contracts for the deductive verifier in /verif (govc), helper "cpc2" (C11). This file contains no code: with the build
+// tag off it is not part of the package, with it on it adds nothing to the build.
+package eip712
+
+//@ import common "github.com/ethereum/go-ethereum/common"
+//@ import big "math/big"
+
+// typed.go VerifySignature: hashes the typed message for the chain id (EIP-712), rebuilds the 65-byte signature from r, s, v
+// (v - 27 for 27 / 28), recovers the public key (crypto.Ecrecover) and compares the recovered address with the expected one.
+// TRUSTED summary (keccak / ecrecover / EIP-712 hashing are go-ethereum code; cryptographic hardness is out of scope): the
+// call is recorded in the ghost log of signature checks (prelude/4a_cpc2_native_staking.spec) — which address it was asked
+// to match, for which message object and chain id object, and whether it succeeded (match && err == nil); a match means
+// the recovered address IS the expected one.
+//@ func VerifySignature(expectedAddress common.Address, tm TypedMessage, r, s [32]byte, v uint8, chainId *big.Int) (match bool, recoveredAddress common.Address, err error)
+//@   assumed
+//@   modifies sigChecks[0], sigCheckExpected[sigChecks[0]], sigCheckMsg[sigChecks[0]], sigCheckChain[sigChecks[0]], sigCheckOk[sigChecks[0]]
+//@   ensures sigChecks[0] == old(sigChecks[0]) + 1 && sigCheckExpected[old(sigChecks[0])] == expectedAddress && sigCheckMsg[old(sigChecks[0])] == payload(tm) && sigCheckChain[old(sigChecks[0])] == chainId && sigCheckOk[old(sigChecks[0])] == (match && err == nil)
+//@   ensures match ==> recoveredAddress == expectedAddress
+//@   panics any
